@@ -224,6 +224,28 @@ func runHistory(rc *harness.RunCtx, cfg *Config, ops []sim.Op, faults []sim.Faul
 			res.viol, res.class, res.opIdx = v[0], classOf(v[0]), i
 			return res
 		}
+		if op.Kind == "recv" && !faulted && r.Err == nil {
+			uncertain = dropInts(uncertain, op.B)
+		}
+		if faulted && op.Kind == "recv" && r.Err != nil {
+			// what a client does after a refused upload: try again. The
+			// failure was transient, so the retry must be served like any
+			// other receive, and its acknowledgement counts.
+			r2, herr := s.do(ctx, op)
+			if herr != nil {
+				res.viol = fmt.Sprintf("retry of %s after the transient failure never returned (%v)", op.String(), herr)
+				res.class, res.opIdx, res.hang = "hang-after", i, true
+				return res
+			}
+			faulted2 := firedTotal() > before+1
+			if v := s.model.Check(op, r2, faulted2); len(v) > 0 {
+				res.viol, res.class, res.opIdx = "retry after the transient failure: "+v[0], "retry:"+classOf(v[0]), i
+				return res
+			}
+			if !faulted2 && r2.Err == nil {
+				uncertain = dropInts(uncertain, op.B)
+			}
+		}
 	}
 	// healthy closing sweep: pin every undetermined blob by observation, then
 	// demand exact reference-map behaviour, also from the recovery procedures
@@ -293,6 +315,22 @@ func runHistory(rc *harness.RunCtx, cfg *Config, ops []sim.Op, faults []sim.Faul
 	s.task(func() { s.world.Restart(true) })
 	res.gateUse = shimsyncutil.VerifGatesInUse()
 	return res
+}
+
+func dropInts(a, drop []int) []int {
+	var out []int
+	for _, x := range a {
+		keep := true
+		for _, d := range drop {
+			if x == d {
+				keep = false
+			}
+		}
+		if keep {
+			out = append(out, x)
+		}
+	}
+	return out
 }
 
 // recoverAll wipes every rebuildable local index of the composition, runs the
